@@ -94,6 +94,7 @@ def analyse(program):
         # structural rules that use the interpreter's view of iterators
         rules_struct.iter1(eng, sv)
         rules_struct.iter3(eng, sv)
+        rules_struct.iter3_accumulators(eng, sv)
         rules_struct.search_closures(eng, closures, sv)
         if kind == "rc_drop":
             rules_struct.iter5(eng, sv)
